@@ -76,6 +76,7 @@ type flakyFile struct {
 func (f *flakyFile) GetAttr(m p9.AttrMask) (p9.QID, p9.AttrMask, p9.Attr, error) {
 	if *f.n > 0 {
 		*f.n--
+		simrt.Fault("backend.error")
 		return p9.QID{}, p9.AttrMask{}, p9.Attr{}, linux.EIO
 	}
 	return f.File.GetAttr(m)
@@ -293,6 +294,7 @@ func runC19(rcx *RunCtx) {
 			os.Mkdir(tmp, 0o755)
 			os.WriteFile(filepath.Join(tmp, "new"), []byte("n"), 0o644)
 			rcx.Count("mounted_directory_replaced", 1)
+			simrt.Fault("disk.mounted-directory-replaced")
 		}
 		// transient errors of one mount's GetAttr while listing: a failed
 		// Readdir call is repeated, a successful one must be right
@@ -320,6 +322,7 @@ func runC19(rcx *RunCtx) {
 					}
 				}
 				rcx.Count("entries_unlinked_during_listing", len(removed))
+				simrt.Fault("disk.entries-unlinked-during-listing")
 			})
 		}
 		all, ncalls, problem := pageThrough(dir, count, len(truth)+12, tol, hook...)
